@@ -147,6 +147,17 @@ type c09Stats struct {
 func checkC09(rc *RunCtx) *Report {
 	rep := newReport("model_checking")
 	scs := c09Scenarios(rc.Thorough())
+	if !rc.Thorough() {
+		// the quick tier keeps the scenarios whose work-set graph stays below ~25 000 states
+		var small []*Scenario
+		for _, s := range scs {
+			if strings.HasPrefix(s.Name, "S1 ") || strings.HasPrefix(s.Name, "S7b") || strings.HasPrefix(s.Name, "S7c") {
+				continue
+			}
+			small = append(small, s)
+		}
+		scs = small
+	}
 	if rc.Replay != "" {
 		replayE1(rc, rep, scs)
 		return rep
